@@ -25,8 +25,15 @@ OnBatch ==
                                (E.rows = E.lens[1] /\ E.len = E.lens[1] /\ E.stored = E.lens[1]))
   /\ seenBatch' = seenBatch \cup {E.lens}
   /\ UNCHANGED seenCtor
+(* `entities!((..); n)` with a count expression that has a side effect: E.lens is the count as it was
+   evaluated for each column.  The batch is built in safe code, so its columns must be equal *)
+OnMacro ==
+  /\ Chk("ragged-batch-built-through-the-safe-macro", BatchEnabled(E.lens))
+  /\ Chk("macro-batch-row-count", E.outcome = "returned" =>
+                                     (E.rows = E.lens[1] /\ E.len = E.lens[1] /\ E.stored = E.lens[1]))
+  /\ UNCHANGED <<seenCtor, seenBatch>>
 Step == /\ l <= NRec /\ l' = l + 1
-        /\ CASE E.ev = "ctor" -> OnCtor [] E.ev = "batch" -> OnBatch
+        /\ CASE E.ev = "ctor" -> OnCtor [] E.ev = "batch" -> OnBatch [] E.ev = "macro" -> OnMacro
 Init == l = 1 /\ seenCtor = {} /\ seenBatch = {}
 Spec == Init /\ [][Step]_vars
 (* coverage: the whole space was enumerated (checked in the final state) *)
